@@ -136,6 +136,9 @@ def run_case(ctx, case):
     model.report_length = case["report_length"]
     model.report_check = case["check"]
     dev = SimDevice(net, version=version, token=token, key=key, device_id=case["id"], ac=model, seed=case["sseed"])
+    # the segments of one reply are a network effect on an ordered byte stream: the bytes of a later reply can never arrive
+    # between (or before) the remaining segments of an earlier one
+    dev.fifo = True
     info = {"splits": False, "coalesces": False, "exchanges": 0}
 
     def on_exchange(conn, req, packets, meta):
